@@ -1612,6 +1612,12 @@ fn build_unary_lt(lhs: &AstNode) -> Result<Evaluator> {
 
 /// Evaluates ternary equality between two values.
 pub fn eval_ternary_equality(lhs: &Value, rhs: &Value) -> Option<bool> {
+  // null is equal only to null, whichever side it is written on
+  match (lhs, rhs) {
+    (Value::Null(_), Value::Null(_)) => return Some(true),
+    (Value::Null(_), _) | (_, Value::Null(_)) => return Some(false),
+    _ => {}
+  }
   match lhs {
     Value::Boolean(ls) => match rhs {
       Value::Boolean(rs) => Some(*ls == *rs),
